@@ -7,7 +7,8 @@ RULE = ("case = one injector lifetime: a seeded random history of 0-12 installs 
         "repetition of the same target, kinds raw/closure/fake!/fake!+times/boolean/async/unchecked, calls after every install checked "
         "against a stack model (most recent wins), exit normal / by unwinding / by a count-verification panic / by an over-call panic; "
         "after exit the 32-byte image of every target and the whole arena equal the pre-lifetime images and every target returns its "
-        "original value. distinct = distinct (set of kinds, max repetition of one target capped at 5, exit path, number of target families) classes")
+        "original value; in simulation (unmodified arm64 / arm / amd64 emitters against a simulated memory) the guard each install creates "
+        "must restore exactly the range that was overwritten, at that address, with its pre-image. distinct = distinct (set of kinds, max repetition of one target capped at 5, exit path, number of target families) classes")
 ASSUME = ["hundreds of consecutive lifetimes share one process so that stale state can accumulate; a violating lifetime ends the child (state may be corrupt) and the parent restarts after it",
           "call counters of fake!(times) sites are zeroed by the harness before each install so that this verdict does not depend on C07"]
 
@@ -39,9 +40,25 @@ def extra(r, exe, thorough):
 
 
 def run(tier, seed):
-    r, obs = _hist.run_hist("C02", tier, seed, "c02", 40000, 16 * 150000, RULE, ASSUME, extra_runs=extra)
+    r, obs = _run(tier, seed)
+    # bookkeeping of the non-x86 back ends (and the amd64 long entry) in simulation: the guard restores exactly
+    # the range that was overwritten, with the bytes that were there before
+    from props import _sim
+    _sim.run_sim(r, "c02sim", seed, tier, ["linux", "macos"] if tier == "thorough" else ["linux"], ["dev", "release"] if tier == "thorough" else ["dev"], nshards=6, crosscheck=False)
     return r.finish({"scenario": "hist", "mon": "c02", "n": 40000 if tier == "quick" else 16 * 150000, "batch": 1})
 
 
+def _run(tier, seed):
+    return _hist.run_hist("C02", tier, seed, "c02", 40000, 16 * 150000, RULE, ASSUME, extra_runs=extra)
+
+
 def replay(path):
+    rp = core.load_replay(path)
+    if str(rp.get("engine", "")).startswith("sim"):
+        import subprocess, simgen
+        eng = rp["engine"].split("/")
+        exe, _ = simgen.build(eng[1], eng[2])
+        p = subprocess.run([exe, "c02sim", "--seed", str(rp["seed"]), "--tier", rp["tier"], "--only", str(rp["case_index"])], stdout=subprocess.PIPE, text=True)
+        print(p.stdout[-2500:])
+        return 1 if ('"verdict":"violated"' in p.stdout or p.returncode != 0) else 0
     return _hist.replay_hist(path, "c02")
